@@ -118,6 +118,9 @@ func genTroublePlan(r *rand.Rand) *ProxyPlan {
 			if r.IntN(4) == 0 {
 				q.ReadChunk = 1024
 			}
+			if r.IntN(10) == 0 {
+				q.Body = 30 // content on a GET: unusual but legal, and it can be sent upstream only once
+			}
 			if r.IntN(12) == 0 {
 				// "another client hanging up": this one leaves, the others must not notice
 				q.Disconnect = []int{-1, 1, 2000}[r.IntN(3)]
